@@ -549,4 +549,220 @@ theorem countRuleRuns_last (n : Int) (pre : List PSnap) (s : PSnap) (isLast : Bo
   simp [hne]
 
 
+
+/-! ## the documented (periods) form -/
+
+theorem pairwise_prefix_snoc {α} (r : α → α → Prop) (a : List α) (x : α) (b : List α)
+    (h : (a ++ x :: b).Pairwise r) : (a ++ [x]).Pairwise r := by
+  exact List.Pairwise.sublist (List.Sublist.append_left (List.Sublist.cons₂ x (List.nil_sublist b)) a) h
+
+theorem any_congr' {α} (l : List α) (f g : α → Bool) (h : ∀ a ∈ l, f a = g a) : l.any f = l.any g := by
+  induction l with
+  | nil => rfl
+  | cons a as ih =>
+    simp only [List.any_cons]
+    rw [h a (by simp), ih (fun b hb => h b (List.mem_cons_of_mem _ hb))]
+
+theorem countRule_periods (k : Kind) (hk : k ≠ .last) (n : Int) (pre : List PSnap) (s : PSnap) (isLast : Bool)
+    (hp : (keysOf k 0 pre ++ [bucketKey k s.civ pre.length]).Pairwise (· ≥ ·))
+    (hn : (-1 : Int) ∉ keysOf k 0 pre ++ [bucketKey k s.civ pre.length]) :
+    countRuleRuns k n pre s isLast = countRulePeriods k n pre s isLast := by
+  simp only [countRuleRuns, countRulePeriods]
+  have hp1 : (keysOf k 0 pre).Pairwise (· ≥ ·) := (List.pairwise_append.mp hp).1
+  have hn1 : (-1 : Int) ∉ keysOf k 0 pre := fun h => hn (List.mem_append_left _ h)
+  have hn2 : bucketKey k s.civ pre.length ≠ -1 := fun h => hn (by simp [h])
+  rw [runHeads_eq_distinct _ hp1 hn1]
+  have := ne_lastOr_iff _ _ hp hn2
+  congr 1
+  by_cases hm : bucketKey k s.civ pre.length ∈ keysOf k 0 pre
+  · have h1 : ¬ bucketKey k s.civ pre.length ≠ lastOr (-1) (keysOf k 0 pre) := fun h => this.mp h hm
+    simp only [ne_eq, Decidable.not_not] at h1
+    simp [hm, ← h1]
+  · have h1 := this.mpr hm
+    simp [hm, h1]
+
+theorem withinRule_periods (ctx : Ctx) (k : Kind) (pre : List PSnap) (s : PSnap) (isLast : Bool)
+    (hp : (keysOf k 0 pre ++ [bucketKey k s.civ pre.length]).Pairwise (· ≥ ·))
+    (hn : (-1 : Int) ∉ keysOf k 0 pre ++ [bucketKey k s.civ pre.length]) :
+    withinRuleRuns ctx k pre s isLast = withinRulePeriods ctx k pre s isLast := by
+  simp only [withinRuleRuns, withinRulePeriods]
+  have hn2 : bucketKey k s.civ pre.length ≠ -1 := fun h => hn (by simp [h])
+  have := ne_lastOr_iff _ _ hp hn2
+  congr 1
+  by_cases hm : bucketKey k s.civ pre.length ∈ keysOf k 0 pre
+  · have h1 : ¬ bucketKey k s.civ pre.length ≠ lastOr (-1) (keysOf k 0 pre) := fun h => this.mp h hm
+    simp only [ne_eq, Decidable.not_not] at h1
+    simp [hm, ← h1]
+  · have h1 := this.mpr hm
+    simp [hm, h1]
+
+/-- the regularity condition, for one position -/
+def RegularAt (pre : List PSnap) (s : PSnap) : Prop :=
+  ∀ k ∈ withinKinds, (keysOf k 0 pre ++ [bucketKey k s.civ pre.length]).Pairwise (· ≥ ·) ∧
+    (-1 : Int) ∉ keysOf k 0 pre ++ [bucketKey k s.civ pre.length]
+
+theorem keptRuns_eq_keptPeriods (ctx : Ctx) (pre : List PSnap) (s : PSnap) (isLast : Bool)
+    (h : RegularAt pre s) : keptRuns ctx pre s isLast = keptPeriods ctx pre s isLast := by
+  unfold keptRuns keptPeriods
+  have e1 : countKinds.any (fun k => countRuleRuns k (ctx.p.countOf k) pre s isLast) =
+      ((ctx.p.last == -1 || decide ((pre.length : Int) < ctx.p.last)) ||
+        withinKinds.any (fun k => countRulePeriods k (ctx.p.countOf k) pre s isLast)) := by
+    have : countKinds = .last :: withinKinds := rfl
+    rw [this, List.any_cons, countRuleRuns_last]
+    congr 1
+    apply any_congr'
+    intro k hk
+    have hne : k ≠ .last := by
+      intro e; subst e; simp [withinKinds] at hk
+    exact countRule_periods k hne _ pre s isLast (h k hk).1 (h k hk).2
+  have e2 : withinKinds.any (fun k => withinRuleRuns ctx k pre s isLast) =
+      withinKinds.any (fun k => withinRulePeriods ctx k pre s isLast) := by
+    apply any_congr'
+    intro k hk
+    exact withinRule_periods ctx k pre s isLast (h k hk).1 (h k hk).2
+  rw [e1, e2]
+  simp [Policy.countOf, Bool.or_assoc]
+
+theorem regularAt_of_keysRegular (l pre rest : List PSnap) (s : PSnap) (hl : l = pre ++ s :: rest)
+    (h : keysRegular l = true) : RegularAt pre s := by
+  intro k hk
+  simp only [keysRegular, List.all_eq_true, Bool.and_eq_true, Bool.not_eq_true',
+    Bool.not_eq_eq_eq_not, Bool.not_true] at h
+  have hk' := h k hk
+  have hsplit : keysOf k 0 l = keysOf k 0 pre ++ bucketKey k s.civ pre.length :: keysOf k (pre.length + 1) rest := by
+    rw [hl, keysOf_append]; simp [keysOf]
+  constructor
+  · have := antitone_pairwise _ hk'.1
+    rw [hsplit] at this
+    exact pairwise_prefix_snoc _ _ _ _ this
+  · intro hm
+    have : (-1 : Int) ∈ keysOf k 0 l := by
+      rw [hsplit]
+      rcases List.mem_append.mp hm with h1 | h1
+      · exact List.mem_append_left _ h1
+      · simp only [List.mem_singleton] at h1
+        exact List.mem_append_right _ (by simp [h1])
+    have hc := hk'.2
+    rw [← List.contains_iff_mem] at this
+    rw [this] at hc; cases hc
+
+theorem flags_runs_eq_periods (ctx : Ctx) (l : List PSnap) (h : keysRegular l = true) :
+    flagsFrom (keptRuns ctx) [] l = flagsFrom (keptPeriods ctx) [] l := by
+  apply flagsFrom_congr
+  intro pre s rest he
+  exact keptRuns_eq_keptPeriods ctx pre s _ (regularAt_of_keysRegular l pre rest s (by simpa using he) h)
+
+/-! ## ApplyPolicy as a whole -/
+
+theorem sorted_split {pre rest : List PSnap} {s : PSnap} (h : Sorted (pre ++ s :: rest)) :
+    ∀ x ∈ pre, x.time ≥ s.time := by
+  intro x hx
+  exact (List.pairwise_append.mp h).2.2 x hx s (by simp)
+
+/-- the loop's keep flags are the rules in their runs form (any list sorted newest first) -/
+theorem loop_flags_runs (ctx : Ctx) (l : List PSnap) (hs : Sorted l) :
+    (loop ctx ⟨initBuckets ctx.p, initWBuckets ctx.p⟩ 0 l).map (·.keep) = flagsFrom (keptRuns ctx) [] l := by
+  have := loop_flags ctx l [] ⟨initBuckets ctx.p, initWBuckets ctx.p⟩ (by simp [bucketAfter]) (by simp [wbucketAfter])
+  simp only [List.length_nil] at this
+  rw [this]
+  apply flagsFrom_congr
+  intro pre s rest he
+  simp only [List.nil_append] at he
+  exact keptState_eq_keptRuns ctx pre s _ (sorted_split (he ▸ hs))
+
+/-- the latest timestamp used by `ApplyPolicy` (zero time for the empty list, where it is not used) -/
+def latestOf (now : Int) (l : List PSnap) : Int := (findLatestTimestamp now (sortNewestFirst l)).getD zeroTime
+
+/-- `ApplyPolicy` never panics, and its result is the loop over the stably sorted list -/
+theorem applyPolicy_eq (sub : Int → Dur → Int) (now : Int) (l : List PSnap) (p : Policy) :
+    applyPolicy sub now l p =
+      .ok (loop ⟨sub, latestOf now l, p⟩ ⟨initBuckets p, initWBuckets p⟩ 0 (sortNewestFirst l)) := by
+  unfold applyPolicy latestOf
+  cases h : sortNewestFirst l with
+  | nil => simp [loop]
+  | cons a b => simp [findLatestTimestamp]
+
+theorem applyPolicy_no_panic (sub : Int → Dur → Int) (now : Int) (l : List PSnap) (p : Policy) :
+    applyPolicy sub now l p ≠ .panic := by
+  rw [applyPolicy_eq]; intro h; cases h
+
+theorem filter_map_zip (ds : List Decision) :
+    ((ds.map (·.snap)).zip (ds.map (·.keep))).filter (·.2) = (ds.filter (·.keep)).map fun d => (d.snap, d.keep) := by
+  induction ds with
+  | nil => rfl
+  | cons d ds ih =>
+    simp only [List.map_cons, List.zip_cons_cons, List.filter_cons]
+    cases hk : d.keep <;> simp [ih, hk]
+
+theorem filter_map_zip_not (ds : List Decision) :
+    ((ds.map (·.snap)).zip (ds.map (·.keep))).filter (!·.2) = (ds.filter (!·.keep)).map fun d => (d.snap, d.keep) := by
+  induction ds with
+  | nil => rfl
+  | cons d ds ih =>
+    simp only [List.map_cons, List.zip_cons_cons, List.filter_cons]
+    cases hk : d.keep <;> simp [ih, hk]
+
+/-- **partition**: keep and remove partition the input list -/
+theorem partition (sub : Int → Dur → Int) (now : Int) (l : List PSnap) (p : Policy) (ds : List Decision)
+    (h : applyPolicy sub now l p = .ok ds) : (keepOf ds ++ removeOf ds).Perm l := by
+  rw [applyPolicy_eq] at h
+  injection h with h
+  have hs : ds.map (·.snap) = sortNewestFirst l := by rw [← h]; exact loop_snaps _ _ _ _
+  unfold keepOf removeOf
+  have : ((ds.filter (·.keep)) ++ (ds.filter (!·.keep))).Perm ds := List.filter_append_perm _ ds
+  have := this.map (·.snap)
+  rw [List.map_append, hs] at this
+  exact this.trans (sort_perm l)
+
+/-- **reasons**: one entry per kept snapshot, in the order of `keep`, each with at least one reason -/
+theorem reasons_aligned (sub : Int → Dur → Int) (now : Int) (l : List PSnap) (p : Policy) (ds : List Decision)
+    (h : applyPolicy sub now l p = .ok ds) :
+    (reasonsOf ds).map (·.1) = keepOf ds ∧ ∀ r ∈ reasonsOf ds, r.2 ≠ [] := by
+  rw [applyPolicy_eq] at h
+  injection h with h
+  constructor
+  · simp [reasonsOf, keepOf, Function.comp_def]
+  · intro r hr
+    simp only [reasonsOf, List.mem_map, List.mem_filter] at hr
+    obtain ⟨d, ⟨hd, hk⟩, rfl⟩ := hr
+    have := loop_keep_reasons _ _ _ _ d (h ▸ hd)
+    rw [hk] at this
+    intro he
+    have he' : d.reasons = [] := he
+    rw [he'] at this
+    simp at this
+
+/-- **main theorem**: what `ApplyPolicy` returns satisfies the executable statement of C22 -/
+theorem applyPolicy_specOK (sub : Int → Dur → Int) (now : Int) (l : List PSnap) (p : Policy) (ds : List Decision)
+    (h : applyPolicy sub now l p = .ok ds) :
+    specOK sub (latestOf now l) l p ((keepOf ds).map (·.sn.id)) ((removeOf ds).map (·.sn.id))
+      ((reasonsOf ds).map (·.2.length)) = true := by
+  have hra := reasons_aligned sub now l p ds h
+  rw [applyPolicy_eq] at h
+  injection h with h
+  have hsn : ds.map (·.snap) = sortNewestFirst l := by rw [← h]; exact loop_snaps _ _ _ _
+  have hfl : ds.map (·.keep) = flagsFrom (keptRuns ⟨sub, latestOf now l, p⟩) [] (sortNewestFirst l) := by
+    rw [← h]; exact loop_flags_runs ⟨sub, latestOf now l, p⟩ _ (sort_sorted l)
+  have hflags : (if keysRegular (sortNewestFirst l) = true
+      then flagsFrom (keptPeriods ⟨sub, latestOf now l, p⟩) [] (sortNewestFirst l)
+      else flagsFrom (keptRuns ⟨sub, latestOf now l, p⟩) [] (sortNewestFirst l)) = ds.map (·.keep) := by
+    split
+    · rename_i hr; rw [hfl, flags_runs_eq_periods _ _ hr]
+    · exact hfl.symm
+  simp only [specOK, hflags]
+  simp only [← hsn, filter_map_zip, filter_map_zip_not, List.map_map, Function.comp_def,
+    Bool.and_eq_true, beq_iff_eq, List.all_eq_true, decide_eq_true_eq]
+  refine ⟨⟨⟨?_, ?_⟩, ?_⟩, ?_⟩
+  · simp [keepOf, Function.comp_def]
+  · simp [removeOf, Function.comp_def]
+  · simp [reasonsOf, keepOf]
+  · intro n hn
+    simp only [List.mem_map] at hn
+    obtain ⟨r, hr, rfl⟩ := hn
+    have := hra.2 r hr
+    cases hh : r.2 with
+    | nil => exact absurd hh this
+    | cons a b => simp
+
+
 end Restic.Props.C22
